@@ -1,4 +1,5 @@
 use super::*;
+use crate::ast_util::purge_trivia;
 use crate::ast_util::range;
 use std::convert::Infallible;
 
@@ -70,7 +71,7 @@ impl Visitor for Color3BoundsVisitor {
 
             then {
                 for argument in arguments {
-                    if let Ok(number) = argument.to_string().parse::<f32>() {
+                    if let Ok(number) = purge_trivia(argument).to_string().parse::<f32>() {
                         if !(0.0..=1.0).contains(&number) {
                             self.positions.push(range(argument));
                         }
